@@ -323,7 +323,14 @@ class Fn:
     def declare(self, name, ty):
         want = self.locals.get(name)
         if want is None:
-            raise Unsupported(f"variable {name} is not in the typing table")
+            # a local that is not in the typing table (e.g. a renamed one): its type is the type of the
+            # expression first assigned to it, provided that type is fully known (`[]` / `None` are not)
+            if name in self.env:
+                want = self.env[name]
+            elif "?" in ty or ty in ("", "None"):
+                raise Unsupported(f"variable {name} is not in the typing table and its type cannot be inferred")
+            else:
+                want = ty
         if ty != want and not (ty == "Option ?" and want.startswith("Option ")):
             raise Unsupported(f"variable {name}: expected {want}, got {ty}")
         first = name not in self.env
